@@ -897,7 +897,10 @@ class Ev(object):
         _, node, owner = r
         fv = FuncV(node, owner.mod, owner=owner)
         names = [d.id for d in node.decorator_list if isinstance(d, ast.Name)]
-        user = [d for d in node.decorator_list if not (isinstance(d, ast.Name) and d.id in self._BUILTIN_DECOS)]
+        # functools.cached_property: a property whose first result is kept in the instance's own dictionary
+        cached = [d for d in node.decorator_list if (isinstance(d, ast.Name) and d.id == "cached_property")
+                  or (isinstance(d, ast.Attribute) and d.attr == "cached_property" and isinstance(d.value, ast.Name) and d.value.id == "functools")]
+        user = [d for d in node.decorator_list if not (isinstance(d, ast.Name) and d.id in self._BUILTIN_DECOS) and d not in cached]
         val = fv
         if user:
             key = ("deco", fv._key)
@@ -908,6 +911,16 @@ class Ev(object):
             return [(st, Bound(val, cls))]
         if "staticmethod" in names:
             return [(st, val)]
+        if cached:
+            if obj is None:
+                return [(st, val)]
+            res = []
+            for o in self.call(val, (obj,), (), st, site):
+                if isinstance(obj, Obj) and obj.oid in o.state.heap:
+                    o.state.heap[obj.oid][node.name] = o.value          # later reads find the instance attribute first
+                    o.state.log.append(("memo-store", obj, node.name, o.value, site))   # not an effect of the caller: a pure function of the instance, kept
+                res.append((o.state, o.value))
+            return res
         if "property" in names:
             if obj is None:
                 return [(st, val)]
